@@ -4,7 +4,8 @@
 //! a fresh `DiskCache` on the same directory.
 //!
 //! legs:  `disk`  case   = ( cap ( (key pid plen elen mtime) ... ) ( thread ... ) ( tid ... ) )
-//!                thread = ( put key pid plen elen nchunks ) | ( get key )
+//!                thread = ( put key pid plen elen nchunks fail ) | ( get key )
+//!                         fail = 1: the real write_all is made to fail after elen/2 bytes (RLIMIT_FSIZE, EFBIG)
 //!                result = ( ( r ... ) ( o ... ) ntmp size ( o ... ) ntmp size )
 //!                  r (put) = ok | too_large | err | unfinished | stuck
 //!                  r (get), o = miss | ( hit pid ) | torn | ( foreign pid ) | err | unfinished | stuck
@@ -233,7 +234,7 @@ fn size_of(h: &tokio::runtime::Handle, cache: &DiskCache) -> Sx {
 }
 
 enum Th {
-    Put { key: String, pid: u64, plen: u64, elen: u64, chunks: u64 },
+    Put { key: String, pid: u64, plen: u64, elen: u64, chunks: u64, fail: bool },
     Get { key: String },
 }
 
@@ -279,12 +280,13 @@ fn run_case(case: &Sx) -> Sx {
         keys.push(key.clone());
         if tag == "put" {
             let (pid, plen, elen, chunks) = (t.arg(2).u64(), t.arg(3).u64(), t.arg(4).u64(), t.arg(5).u64().max(1));
+            let fail = t.arg(6).u64() != 0;
             let real = entry_for(pid, plen).finish().unwrap().len() as u64;
             if real != elen {
                 return Sx::L(vec![Sx::sym("bad_size"), Sx::n(pid), Sx::n(real)]);
             }
             known.push(Known { key: key.clone(), pid, plen });
-            threads.push(Th::Put { key, pid, plen, elen, chunks });
+            threads.push(Th::Put { key, pid, plen, elen, chunks, fail });
         } else {
             threads.push(Th::Get { key });
         }
@@ -352,16 +354,31 @@ fn run_case(case: &Sx) -> Sx {
             continue;
         }
         let point = ctl.point_of(t).unwrap_or_default();
-        if let Th::Put { chunks, .. } = &threads[t] {
+        let mut limit = None;
+        if let Th::Put { chunks, fail, elen, .. } = &threads[t] {
             if point == "put.reserved" {
                 chunks_done[t] += 1;
-                if chunks_done[t] < *chunks {
+                if *fail {
+                    // the model writes `chunks` pieces and then sees the failure: the real write_all (which
+                    // fails half way) and the abandon that follows happen with the model's Abandon step
+                    if chunks_done[t] <= *chunks {
+                        continue;
+                    }
+                    limit = Some(*elen / 2);
+                } else if chunks_done[t] < *chunks {
                     continue; // an earlier chunk of the model's write: the real write happens with the last one
                 }
             }
         }
+        if let Some(n) = limit {
+            set_fsize_limit(Some(n));
+        }
         let seq = ctl.release(t);
-        if !ctl.wait_parked_or_done(t, seq) {
+        let arrived = ctl.wait_parked_or_done(t, seq);
+        if limit.is_some() {
+            set_fsize_limit(None);
+        }
+        if !arrived {
             stuck[t] = true;
             continue;
         }
@@ -391,11 +408,13 @@ fn run_case(case: &Sx) -> Sx {
     }
     // a store that the model has interrupted in the middle of its write: leave that much of the entry
     for (t, th) in threads.iter().enumerate() {
-        if let Th::Put { pid, plen, elen, chunks, .. } = th {
-            if ctl.point_of(t).as_deref() == Some("put.reserved") && chunks_done[t] > 0 && chunks_done[t] < *chunks {
+        if let Th::Put { pid, plen, elen, chunks, fail, .. } = th {
+            let all = *chunks + if *fail { 1 } else { 0 };
+            if ctl.point_of(t).as_deref() == Some("put.reserved") && chunks_done[t] > 0 && chunks_done[t] < all {
                 if let Some(p) = temp_of.get(&t) {
                     let bytes = entry_for(*pid, *plen).finish().unwrap();
-                    let n = ((*elen / *chunks) * chunks_done[t]) as usize;
+                    let total = if *fail { *elen / 2 } else { *elen };
+                    let n = if chunks_done[t] >= *chunks { total } else { (total / *chunks) * chunks_done[t] } as usize;
                     if let Ok(mut f) = std::fs::OpenOptions::new().write(true).open(p) {
                         let _ = f.write_all(&bytes[..n.min(bytes.len())]);
                     }
@@ -433,6 +452,19 @@ fn run_case(case: &Sx) -> Sx {
     Sx::L(out)
 }
 
+/// lower (Some) or restore (None) the soft file-size limit of the process: a write beyond it fails with EFBIG
+fn set_fsize_limit(n: Option<u64>) {
+    unsafe {
+        let mut r: libc::rlimit = std::mem::zeroed();
+        libc::getrlimit(libc::RLIMIT_FSIZE, &mut r);
+        r.rlim_cur = match n {
+            Some(n) => n as libc::rlim_t,
+            None => r.rlim_max,
+        };
+        libc::setrlimit(libc::RLIMIT_FSIZE, &r);
+    }
+}
+
 fn run_size(case: &Sx) -> Sx {
     let n = entry_for(case.arg(0).u64(), case.arg(1).u64()).finish().unwrap().len();
     Sx::usize(n)
@@ -440,6 +472,9 @@ fn run_size(case: &Sx) -> Sx {
 
 fn main() {
     vh::quiet_panics();
+    unsafe {
+        libc::signal(libc::SIGXFSZ, libc::SIG_IGN);
+    }
     let leg = std::env::args().nth(1).unwrap_or_default();
     match leg.as_str() {
         "size" => vh::run_lines(run_size),
